@@ -295,10 +295,17 @@ theorem simplifyRaw_arith : ∀ (a : Arg) (c : Bool) (a' : Arg), simplifyRaw a =
   | neg v =>
     simp only [simplifyRaw] at he
     split at he
-    · simp only [Res.ok.injEq, Prod.mk.injEq] at he
-      obtain ⟨_, rfl⟩ := he
-      simp only [arith, Bool.and_eq_true] at h ⊢
-      exact ⟨h.2, h.1⟩
+    · rename_i l r
+      cases hn : neutralizeRaw (.bin .sub r l) with
+      | ok p =>
+        obtain ⟨c1, x⟩ := p
+        simp only [hn, Res.ok.injEq, Prod.mk.injEq] at he
+        obtain ⟨_, rfl⟩ := he
+        have := arith_neutralizeRaw isReg hn h
+        simp only [arith, Bool.and_eq_true]
+        exact ⟨this.2, this.1⟩
+      | err e => simp [hn] at he
+      | panic => simp [hn] at he
     · rfl
     · cases he
     · cases he
